@@ -102,7 +102,7 @@ class FileHooks(A.Hooks):
 def run_file_case(m, fn, hooks, env):
     it = A.Interp(model=m, scope=fn, hooks=hooks, max_iter=8, exc_edges=False, inline=4, heap=True, precise_exc=True)
     # the package code that persist / restore reach is interpreted (file helpers, wherever they live), except what the scenario answers
-    hooks.should_inline = lambda fname, node, info: info is None or info.name not in ('persist', 'restore', '__getitem__', '__init__')
+    hooks.should_inline = lambda fname, node, info: info is None or info.name not in ('persist', 'restore', '__getitem__')
     outs = it.run_function(fn, env=env)
     need(not it.imprecise, '%s: %s' % (fn.fullname, it.imprecise[:2]))
     need(not it.unknown_branches, '%s: test not determined: %s' % (fn.fullname, it.unknown_branches[:2]))
